@@ -103,6 +103,57 @@ theorem tip_work_mono_history {U} (hU : WFU U) (hist more : List (List Nat)) :
     rw [e2]
     exact Nat.le_trans h1 h2
 
+/-- **`AddValidatedV2Blocks` preserves the invariant** on every batch that satisfies the syncer's
+pre-validation contract (`PreValidated`, discharged by C11's `gate_v2_sound`): the manager stays
+valid, never panics, an error leaves best chain and notifications unchanged, and the tip moves
+only to a sufficiently heavier chain with exactly one notification. -/
+theorem inv_addValidatedV2 {U} (hU : WFU U) {m : Mgr} (h : Inv U m) (batch : List Nat) (nStates : Nat)
+    (hpre : PreValidated U m batch) :
+    Inv U (addValidatedV2 U m batch nStates).1 ∧
+    (((addValidatedV2 U m batch nStates).2 = none ∧
+        (((addValidatedV2 U m batch nStates).1.best = m.best ∧
+            (addValidatedV2 U m batch nStates).1.notified = m.notified) ∨
+         (heavier U (addValidatedV2 U m batch nStates).1.tip m.tip = true ∧
+            (addValidatedV2 U m batch nStates).1.notified = m.notified + 1))) ∨
+     (((addValidatedV2 U m batch nStates).2 = some .lenMismatch ∨
+        (addValidatedV2 U m batch nStates).2 = some .missingParent ∨
+        (addValidatedV2 U m batch nStates).2 = some .reorgFailed) ∧
+        (addValidatedV2 U m batch nStates).1.best = m.best ∧
+        (addValidatedV2 U m batch nStates).1.notified = m.notified)) := by
+  cases batch with
+  | nil => simp [addValidatedV2, h]
+  | cons b0 rest =>
+    obtain ⟨hlink, hpar⟩ := hpre.linked b0 rest rfl
+    simp only [addValidatedV2]
+    by_cases hn : nStates ≠ (b0 :: rest).length
+    · simp only [if_pos hn]; simp [h]
+    · simp only [if_neg hn]
+      have hps : m.states (U b0).parent = true := by
+        have := (h.s.recstate _ _ hpar).2; simpa [par] using this
+      simp only [hps, Bool.not_true, Bool.false_eq_true, if_false]
+      obtain ⟨j1, j2, j3, j4, j5, j6⟩ := addV2Loop_spec hU (b0 :: rest) m (par U b0) h hpar hlink hpre.ok
+      rcases hg : addValidatedV2.go U (b0 :: rest) m with ⟨m1, e⟩
+      rw [hg] at j1 j2 j3 j4 j5 j6
+      simp only at j1 j2 j3 j4 j5 j6
+      subst j2
+      simp only
+      have hcs : m1.states ((b0 :: rest).getLastD b0) = true := by
+        have : (b0 :: rest).getLastD b0 = (b0 :: rest).getLastD (par U b0) := by
+          cases rest <;> simp [List.getLastD]
+        rw [this]; exact (j1.s.recstate _ _ j6).2
+      obtain ⟨k1, _, k3⟩ := maybeReorg_spec j1 hcs
+      have htip : m1.tip = m.tip := by simp [Mgr.tip, j3]
+      refine ⟨k1, ?_⟩
+      rcases k3 with ⟨ke, (⟨kh, kt, kn⟩ | ⟨kh, km⟩)⟩ | ⟨ke, kh, kb, kn⟩
+      · left
+        refine ⟨ke, Or.inr ⟨?_, by rw [kn, j4]⟩⟩
+        rw [kt, ← htip]; exact kh
+      · left
+        refine ⟨ke, Or.inl ?_⟩
+        rw [km]; exact ⟨j3, j4⟩
+      · right
+        exact ⟨Or.inr (Or.inr ke), by rw [kb, j3], by rw [kn, j4]⟩
+
 /-- **`reorgPath` computes the two legs through the common ancestor** and never fails on
 stored blocks (restated from the lemma file so that it is audited with the property) -/
 theorem reorgPath_correct {U m} (h : Inv U m) {a b : Nat}
@@ -140,5 +191,19 @@ example : (addBlocks Uex (run Uex Mgr.init [[1, 2]]) [3]).1.best = [2, 1, 0] := 
 example : (addBlocks Uex (run Uex Mgr.init [[1, 2]]) [3, 4, 5]).2 = some .reorgFailed := by decide
 example : (run Uex Mgr.init [[1, 2], [3, 4, 5], [6]]).best = [6, 2, 1, 0] := by decide
 example : (run Uex Mgr.init [[1, 2], [3, 4, 5], [6]]).notified = 2 := by decide
+
+/-- a v2 universe for the pre-validated path: 1-2 (v2), batch [3] on top of 2 -/
+def Uv2 : Nat → Blk
+  | 1 => ⟨0, 1, 200, 100, true, true, false, true⟩
+  | 2 => ⟨1, 2, 300, 100, true, true, false, true⟩
+  | 3 => ⟨2, 3, 400, 100, true, true, false, true⟩
+  | _ => ⟨0, 0, 100, 100, false, false, false, false⟩
+
+example : PreValidated Uv2 (run Uv2 Mgr.init [[1, 2]]) [3] := by
+  refine ⟨by decide, ?_⟩
+  intro b0 rest hb
+  cases hb
+  exact ⟨by simp [LinkedFrom], by decide⟩
+example : (addValidatedV2 Uv2 (run Uv2 Mgr.init [[1, 2]]) [3] 1).1.best = [3, 2, 1, 0] := by decide
 
 end Verif.C01
